@@ -296,7 +296,20 @@ def Q_digest(inst):
 
 def solve_direct(ctx, mon, V, inst, stratum, cyclic):
     vs, cs = build(V, inst)
-    again = Q_digest(inst)[0] in "01"  # one instance in eight: solve() is called a second time on the same Solver
+    dg = Q_digest(inst)
+    again = dg[0] in "01"  # one instance in eight: solve() is called a second time on the same Solver
+    if dg[0] in "23" and inst.cons:
+        # one in eight: the Variable objects served another Solver with another (acyclic) constraint set before
+        order = {v: k for k, v in enumerate(sorted(range(inst.n), key=lambda i: (inst.d[i], i)))}
+        aux = [V.Constraint(vs[min(l, r, key=order.get)], vs[max(l, r, key=order.get)], g + 1.5) for l, r, g in inst.cons[::2] if l != r]
+        try:
+            V.Solver(vs, aux).solve()
+        except BaseException as e:
+            if not isinstance(e, (Exception, BudgetExceeded)):
+                raise
+        mon.drain()
+        cs = [V.Constraint(vs[l], vs[r], g) for l, r, g in inst.cons]
+        ctx.path("variables-served-another-solver")
     try:
         sv = V.Solver(vs, cs)
         sv.solve()
